@@ -116,6 +116,8 @@ class Contract:
     loops: dict = {}
     #: qualnames whose bodies may be inlined while verifying this function
     inline: tuple = ()
+    #: callees whose result no clause of this contract depends on (havocked, see Interp.call_pyttb)
+    opaque_calls: tuple = ()
     may_raise_otherwise = False
 
     # ---- to be provided by subclasses
@@ -154,6 +156,7 @@ class Contract:
         """Modular call: havoc the result, then assume the callee's postcondition."""
         ret = self.fresh_result(S, a)
         S.ctx.log_ghost("call:" + self.qual.split(".")[-1], ret)
+        S.ctx.log_ghost("callargs:" + self.qual.split(".")[-1], dict(a))
         for item in self.ensures(S, a, ret):
             label, f = item[0], item[1]
             if f is False:
